@@ -445,6 +445,43 @@ def execute(desc, ctx=None, mutate=False, seed=0):
                            sorted(int(l) for l in ci.working_links)]
         c = ctxs.Context({})
         out["context"] = sorted(c.context_arguments.items())
+        # boot a board through a controller: history calls ask for board
+        # options, the probe asks for none and must not inherit any
+        from . import c20
+        from ..sim import machine as simm
+        bootm = imp("rig.machine_control.boot")
+        netw.bind(bootm)
+        sent = []
+        host = "boot%d" % rng.randrange(9)
+        netw.add_host(host, lambda sock, addr, data: sent.append(
+            bytes(data)) if addr[1] == 54321 else None)
+        bmc = mcm.MachineController(host)
+        bopts, bdict = {}, None
+        if mutate:
+            bopts = dict(getattr(bootm, rng.choice(
+                ["spin3_boot_options", "spin5_boot_options"])))
+            bdict = {"utmp%d" % rng.randrange(4): rng.getrandbits(32)}
+        bkw = dict(bopts)
+        given = None
+        if rng.random() < .4:
+            given = bkw["sv_overrides"] = dict(bdict or {})
+            before = dict(given)
+        bmc.boot(only_if_needed=False, check_booted=False, boot_delay=0.0,
+                 **bkw)
+        if given is not None and ctx is not None:
+            ctx.hit("argument_snapshot")
+            check(given == before, "argument-mutated",
+                  "boot(): sv_overrides passed as %r is now %r" %
+                  (before, given), call="boot")
+        area = bytearray(b"".join(c20.decode(d)[3] for d in sent[1:-1])
+                         [384:512])
+        for fld in ("unix_time", "boot_sig"):       # clock-dependent
+            ch_, off_, _, _ = simm.structs()["sv"]["fields"][fld]
+            area[off_:off_ + 4] = b"\0\0\0\0"
+        out["boot_area"] = bytes(area).hex()
+        out["boot_structs"] = sorted(
+            (k.decode(), f.default) for k, f in bmc.structs[b"sv"].fields.items()
+            if k not in (b"unix_time", b"boot_sig"))
         if mutate:
             # use the objects the way applications do
             mc.update_current_context(x=rng.randrange(4), app_id=99)
